@@ -5,6 +5,9 @@ use std::sync::OnceLock;
 /// property whose check is running (for a verdict straight from the panic hook, see below)
 pub static CURRENT_PROP: OnceLock<String> = OnceLock::new();
 
+/// panics located in the harness itself (never a verdict: the run ends as a machinery error)
+pub static HARNESS_PANICS: std::sync::atomic::AtomicU64 = std::sync::atomic::AtomicU64::new(0);
+
 thread_local! {
     static LAST: RefCell<String> = const { RefCell::new(String::new()) };
 }
@@ -29,6 +32,10 @@ pub fn install() {
             if !injected && !raw_loc.starts_with(&repo) && !raw_loc.starts_with("/rustc/") && !raw_loc.contains(".cargo/registry") {
                 // not the crate under test: a bug in the harness itself must never be silent
                 eprintln!("HARNESS PANIC: {} @ {}:{}", msg, raw_loc, info.location().map(|l| l.line()).unwrap_or(0));
+                HARNESS_PANICS.fetch_add(1, std::sync::atomic::Ordering::Relaxed);
+                let loc = info.location().map(|l| format!("{}:{}", l.file(), l.line())).unwrap_or_default();
+                LAST.with(|l| *l.borrow_mut() = format!("[harness] {} @ {}", msg, loc));
+                return;
             }
             if (msg.contains("null pointer dereference occurred") || msg.contains("misaligned pointer dereference")) && raw_loc.starts_with(&repo) {
                 // rustc's debug-assertion UB checks fire with a non-unwinding panic, i.e. the process is
